@@ -11,7 +11,9 @@ def setup(register, COMMON_TB):
              "start-up listing); in a third of the histories the endpoint changes come last; at the end the long-lived result is compared with a "
              "controller freshly started on a copy of the final cluster; non-trivial = at least 15 operations",
         trusted_base=COMMON_TB + [
-            "the watch-filter table c01Filter in the harness mirrors manager.go registerControllers by hand",
+            "the watch filters are read from the source of registerControllers (manager.go) on every run and rebuilt from the real predicate types by a small "
+            "interpreter in the harness (zz_verif_watch_test.go: And/Or/Not and the literal predicates in use; anything else stops the harness); the API "
+            "server stand-in maintains metadata.generation for every kind except Service, Secret, ConfigMap and Namespace",
             "metadata.generation is bumped by the harness when the spec changes (API server behaviour)",
             "canonical comparison of generated files (C17/Check.v files_equal); statuses compared on the objects the fresh controller writes "
             "(statuses of objects that stopped being handled are never cleared: documented limitation of the updater)",
